@@ -10,7 +10,13 @@ S->C: every queue is executed on a real http.Client whose tcp connectors get scr
 """
 from .. import core, httprig
 
-OK = b"HTTP/1.1 200 OK\r\nContent-Length: 2\r\n\r\nok"
+def ok(rid):
+    """the final answer to request rid: its own body, and alternately a header field / a chunked body with a trailer that the
+    next answer does not have (nothing of one response may show up in the next)"""
+    body = b"answer-%d" % rid
+    if rid % 2:
+        return b"HTTP/1.1 200 OK\r\nX-Only-Odd: %d\r\nContent-Length: %d\r\n\r\n%s" % (rid, len(body), body)
+    return b"HTTP/1.1 200 OK\r\nTransfer-Encoding: chunked\r\n\r\n%x\r\n%s\r\n0\r\nX-Trail: %d\r\n\r\n" % (len(body), body, rid)
 PORT = {"A": 8080, "B": 9090}
 
 
@@ -60,10 +66,10 @@ def execute(queue, secure, make="scheme"):
                     here = rq["to"][1]
                     scheme = b"https" if secure else b"http"
                     if s == "ok":
-                        rig.answer(OK)
+                        rig.answer(ok(rid))
                         outstanding -= 1
                     elif s == "delay":
-                        delayed.append([3, OK])
+                        delayed.append([3, ok(rid)])
                     elif s == "bad-location":
                         rig.answer(redirect(b"http://:99/nohost"))
                         outstanding -= 1
@@ -97,6 +103,12 @@ def execute(queue, secure, make="scheme"):
                                     type(rq["reply"]) is not type(TAGS[(rid - 1) % len(TAGS)])):
                 problems.append("the response to request %d does not carry the tag %r given with it: %r" % (
                     rid, TAGS[(rid - 1) % len(TAGS)], rq.get("reply", "no reply entry")))
+            if rid is not None and not r.get("errored") and r.get("status") == 200:
+                hd = {k.lower(): v for k, v in (r.get("headers") or {}).items()}
+                if bytes(r.get("body") or b"") != b"answer-%d" % rid:
+                    problems.append("the response to request %d has body %r" % (rid, bytes(r.get("body") or b"")))
+                if ("x-only-odd" in hd) != bool(rid % 2):
+                    problems.append("the response to request %d has header fields %s" % (rid, sorted(hd)))
             res.append({"rid": rid, "kind": "errored" if r.get("errored") else "ok", "hops": len(r.get("redirects") or []),
                         "status": r.get("status"), "redirect_statuses": [x.get("status") for x in (r.get("redirects") or [])]})
         wire = []
